@@ -6,7 +6,10 @@ Rules
          recalculate_extents() on the group / a new child group, which recurses upwards)
   R17.2  the recalculation hooks have the shape the rule relies on: GroupShapes._recalculate_extents delegates to the
          element; CT_GroupShape.recalculate_extents assigns position/size from the child extents and recurses to the parent
-  (connector end-point arithmetic and freeform scaling are value-level: not decided)
+  R17.3  freeform: shape_offset_x/_y and _dx/_dy range over every coordinate-bearing drawing operation and the start point
+  R17.4  connector end-point setters, every path: moved end-point == value, other end-point unchanged, extent >= 0
+         (path-sensitive evaluation in polynomial normal form, see c17_conn.py)
+  (freeform scaling / rounding are value-level: not decided)
 """
 
 from __future__ import annotations
@@ -242,15 +245,43 @@ def run(ctx):
     r = ge.methods.get("recalculate_extents")
     if r is None:
         raise AnalysisError("anchor vanished: CT_GroupShape.recalculate_extents")
-    src = ast.unparse(r.node)
-    assigns = all(x in src for x in ("self.x = x", "self.y = y", "self.cx = cx", "self.cy = cy")) or all(
-        x in src for x in ("self.x", "self.y", "self.cx", "self.cy", "_child_extents"))
-    up = "self.getparent().recalculate_extents()" in src
-    if assigns and up and "_child_extents" in src:
-        ctx.ok("R17.2", "CT_GroupShape.recalculate_extents", sample={"assigns": "x,y,cx,cy and chOff/chExt from _child_extents", "recurses": "parent"})
+    body = [x for x in r.node.body if not (isinstance(x, ast.Expr) and isinstance(x.value, ast.Constant))]
+    probs = []
+    # the only early exit allowed is the "not a group" guard (the walk ends at the tree root)
+    guard_seen = False
+    for i, x in enumerate(body):
+        if isinstance(x, ast.If) and any(isinstance(y, ast.Return) for y in x.body):
+            tsrc = ast.unparse(x.test)
+            if "self.tag" in tsrc and "grpSp" in tsrc and not guard_seen and i == 0:
+                guard_seen = True
+            else:
+                probs.append("early return under `%s`: the group (or its ancestors) is not refitted on that path" % tsrc[:60])
+        elif any(isinstance(y, ast.Return) for y in ast.walk(x)):
+            probs.append("return before the recalculation is complete (line %d)" % x.lineno)
+    unpack = [x for x in body if isinstance(x, ast.Assign) and isinstance(x.targets[0], ast.Tuple) and dotted(x.value) == "self._child_extents"]
+    names = [e.id for e in unpack[0].targets[0].elts] if unpack else []
+    stored = {}
+    for x in body:
+        if isinstance(x, ast.Assign) and isinstance(x.value, ast.Name):
+            for t in x.targets:
+                d = dotted(t)
+                if d:
+                    stored[d] = x.value.id
+    want = {}
+    if len(names) == 4:
+        want = {"self.x": names[0], "self.y": names[1], "self.cx": names[2], "self.cy": names[3],
+                "self.chOff.x": names[0], "self.chOff.y": names[1], "self.chExt.cx": names[2], "self.chExt.cy": names[3]}
+    miss = {k: v for k, v in want.items() if stored.get(k) != v}
+    if not want or miss:
+        probs.append("position/size and child offset/extent are not all assigned from _child_extents (%s)" % sorted(miss or ["unpacking not found"]))
+    last = body[-1] if body else None
+    up = isinstance(last, ast.Expr) and isinstance(last.value, ast.Call) and ast.unparse(last.value) == "self.getparent().recalculate_extents()"
+    if not up:
+        probs.append("the last statement is not the unconditional upward recursion self.getparent().recalculate_extents()")
+    if not probs:
+        ctx.ok("R17.2", "CT_GroupShape.recalculate_extents", sample={"assigns": "x,y,cx,cy and chOff/chExt from _child_extents", "recurses": "parent, unconditionally"})
     else:
-        ctx.violation("R17.2", "CT_GroupShape.recalculate_extents", "recalculation does not assign all of x,y,cx,cy from the child "
-                      "extents and recurse to the parent", file=ge.file, line=r.line)
+        ctx.violation("R17.2", "CT_GroupShape.recalculate_extents", "; ".join(probs), file=ge.file, line=r.line)
     ce = ge.methods.get("_child_extents")
     csrc = ast.unparse(ce.node) if ce else ""
     if all(t in csrc for t in ("min(", "max(", "iter_shape_elms")):
@@ -258,3 +289,65 @@ def run(ctx):
     else:
         ctx.violation("R17.2", "CT_GroupShape._child_extents", "child extents are not min/max over all member shapes", file=ge.file,
                       line=ce.line if ce else ge.line)
+
+    # -- R17.3 ---------------------------------------------------------------------------------------------
+    ctx.rule("R17.3", "freeform offsets and extents range over every operation that carries a coordinate")
+    ops = {c.name: c for c in fb.classes.values() if "apply_operation_to" in c.methods}
+    coord = {n_ for n_, c in ops.items() if prog.lookup(c, "x") is not None and prog.lookup(c, "y") is not None}
+    if len(coord) < 2:
+        ctx.error("pptx.shapes.freeform", "drawing-operation classes with coordinates not recognised (%s)" % sorted(ops))
+
+    def population(f, axis):
+        """Set of operation classes whose coordinate reaches the result, and whether the start point does."""
+        inc = None
+        start = False
+        for n_ in ast.walk(f.node):
+            if isinstance(n_, ast.Attribute) and n_.attr == "_start_" + axis and dotted(n_.value) == "self":
+                start = True
+            gens = []
+            if isinstance(n_, ast.For) and dotted(n_.iter) == "self":
+                v = n_.target.id
+                excl, only = set(), None
+                for m in ast.walk(n_):
+                    if isinstance(m, ast.If) and isinstance(m.test, ast.Call) and dotted(m.test.func) == "isinstance" and dotted(m.test.args[0]) == v \
+                            and any(isinstance(x, ast.Continue) for x in m.body):
+                        a = m.test.args[1]
+                        excl |= {dotted(e) for e in (a.elts if isinstance(a, ast.Tuple) else [a])}
+                    elif isinstance(m, ast.If) and m is not n_ and any(isinstance(x, (ast.Continue, ast.Break)) for x in m.body):
+                        return None, start
+                inc = set(ops) - {c for c in ops if any(k.name in excl for k in prog.mro(ops[c]) if hasattr(k, "name"))}
+            if isinstance(n_, (ast.ListComp, ast.GeneratorExp)) and len(n_.generators) == 1 and dotted(n_.generators[0].iter) == "self":
+                g = n_.generators[0]
+                v = g.target.id
+                cur = set(ops)
+                for t in g.ifs:
+                    neg = isinstance(t, ast.UnaryOp) and isinstance(t.op, ast.Not)
+                    c = t.operand if neg else t
+                    if isinstance(c, ast.Call) and dotted(c.func) == "isinstance" and dotted(c.args[0]) == v:
+                        a = c.args[1]
+                        names_ = {dotted(e) for e in (a.elts if isinstance(a, ast.Tuple) else [a])}
+                        match = {o for o in ops if any(k.name in names_ for k in prog.mro(ops[o]) if hasattr(k, "name"))}
+                        cur = cur - match if neg else cur & match
+                    else:
+                        return None, start
+                inc = cur if inc is None else inc & cur
+        return inc, start
+
+    for pname, axis in (("shape_offset_x", "x"), ("shape_offset_y", "y"), ("_dx", "x"), ("_dy", "y")):
+        f = fbc.methods.get(pname)
+        if f is None:
+            raise AnalysisError("anchor vanished: FreeformBuilder.%s" % pname)
+        inc, start = population(f, axis)
+        key = "FreeformBuilder.%s" % pname
+        if inc is None:
+            ctx.error(key, "iteration over the drawing operations not recognised")
+        elif (inc & coord) == coord and start and not (inc - coord):
+            ctx.ok("R17.3", key, sample={"operations": sorted(inc), "start_point": True})
+        else:
+            ctx.violation("R17.3", key, "%s ranges over %s%s; every operation that writes a coordinate into the path (%s) and the start "
+                          "point must be covered, or a vertex falls outside the shape's extents" % (
+                              pname, sorted(inc), "" if start else " without the start point", sorted(coord)), file=f.file, line=f.line)
+
+    from checks import c17_conn
+
+    c17_conn.run(ctx, prog)
